@@ -320,8 +320,11 @@ func GenOp(t *rapid.T, w *World, p *Profile) Op {
 	case "hop":
 		c := genCfg(t, false)
 		hop := Op{Kind: "hop", N: rapid.SampledFrom(w.Retained()).Draw(t, "ver"), Flag: rapid.Bool().Draw(t, "compress"), Cfg: &c}
-		if rapid.IntRange(0, 2).Draw(t, "hopPreused") == 0 {
-			hop.Read = "preused"
+		switch rapid.IntRange(0, 3).Draw(t, "hopHandle") {
+		case 0:
+			hop.Read = "preused" // the receiving handle was written to (and emptied again) before; it also goes on afterwards
+		case 1:
+			hop.Read = "samehandle" // the importing handle goes on after the import (no fresh handle, no Load)
 		}
 		return hop
 	case "pin":
